@@ -15,10 +15,12 @@ import (
 	"bytes"
 	"fmt"
 	"math"
+	"regexp"
 	"strings"
 
 	"github.com/go-json-experiment/json/jsontext"
 
+	"verif/hooks"
 	"verif/ref"
 	"verif/run"
 )
@@ -195,6 +197,7 @@ type stats struct {
 	byReason                      [16]int64
 	seqs, seqAccAfterRej          int64
 	stateCompares, depth0Compares int64
+	pointerCompares, hookChecks   int64
 	midEqual, midDiffer           int64
 	finalized                     int64
 	flushAcrossNames              int64
@@ -212,9 +215,49 @@ type runner struct {
 	reuse  bool
 	real   side
 	shadow side
+	cur    []ref.EncCall // sequence being executed (for panic reports)
+	curI   int
 }
 
 func newRunner(w *run.W, st *stats) *runner { return &runner{w: w, st: st} }
+
+var digitRuns = regexp.MustCompile(`[0-9]+`)
+
+// guarded runs one sequence; a panic raised inside the library becomes a violation with
+// a normalized signature (indexes and lengths in the runtime message replaced by N) and
+// the encoders are discarded.  It reports whether fn returned normally.
+func (r *runner) guarded(fn func()) (completed bool) {
+	defer func() {
+		if p := recover(); p != nil {
+			origin, lib, stack := run.PanicOrigin()
+			if !lib {
+				panic(p) // harness bug: the framework reports it as broken
+			}
+			r.real.e, r.shadow.e = nil, nil
+			r.w.Violate("library-panic", map[string]string{"func": origin, "panic": digitRuns.ReplaceAllString(run.Trunc(fmt.Sprint(p), 120), "N")},
+				"opts=%s writer=%s: library panicked during call #%d: %v\n  history: %s\n%s", r.optKey, r.wk, r.curI, p, describe(r.cur, r.curI), stack)
+			r.w.Count("sequences_ended_by_panic", 1)
+		}
+	}()
+	fn()
+	return true
+}
+
+// layoutClass is the normalized option class used in signatures.
+func (r *runner) layoutClass() string {
+	l := r.opt.Layout()
+	c := "compact"
+	switch {
+	case l.Multiline:
+		c = "multiline"
+	case l.Colon || l.Comma:
+		c = "spaces"
+	}
+	if r.opt.HTML || r.opt.JS || r.opt.Preserve || r.opt.CanonInts || r.opt.CanonFloats || r.opt.Reorder {
+		c += "+respell"
+	}
+	return c
+}
 
 func (r *runner) configure(o ref.EncOpts, writer string, reuse bool) {
 	r.opt, r.optKey, r.jopts, r.wk, r.reuse = o, o.Key(), toOptions(o), writer, reuse
@@ -239,6 +282,8 @@ func (st *stats) flush(w *run.W) {
 	c("sequences", &st.seqs)
 	c("seq_accept_after_reject", &st.seqAccAfterRej)
 	c("state_compares", &st.stateCompares)
+	c("pointer_compares", &st.pointerCompares)
+	c("internal_stack_checks", &st.hookChecks)
 	c("depth0_byte_compares", &st.depth0Compares)
 	c("midvalue_delivered_equal", &st.midEqual)
 	c("midvalue_delivered_differs", &st.midDiffer)
@@ -269,10 +314,14 @@ func describe(calls []ref.EncCall, upto int) string {
 }
 
 // runSeq executes one call sequence.  libs may be nil (translated on the fly).
-// States are compared after call i iff check(i); after the last call every open
-// container is closed (in real, shadow and model) and the final state is compared.
+// check(i) selects what is compared after call i: 0 nothing, 1 offsets/depth/indexes/
+// delivered bytes, 2 also StackPointer.  (StackPointer is not a pure observer inside the
+// library: it copies the pending member names out of the output buffer, which would hide
+// a flush that forgets to do so — therefore it is not called after every call.)
+// After the last call every open container is closed (in real, shadow and model) and
+// the final state is compared in full.
 // It returns false when the sequence had to be abandoned after a violation.
-func (r *runner) runSeq(calls []ref.EncCall, libs []libCall, check func(i int) bool) bool {
+func (r *runner) runSeq(calls []ref.EncCall, libs []libCall, check func(i int) int) bool {
 	w, st := r.w, r.st
 	st.seqs++
 	r.real.reset(r.wk, r.jopts, r.reuse)
@@ -281,13 +330,32 @@ func (r *runner) runSeq(calls []ref.EncCall, libs []libCall, check func(i int) b
 	lastRej := "no-rejection"
 	sawRej, accAfterRej := false, false
 
-	step := func(i int, c ref.EncCall, lc *libCall, all []ref.EncCall, doCheck bool) bool {
+	step := func(i int, c ref.EncCall, lc *libCall, all []ref.EncCall, level int) bool {
+		r.cur, r.curI = all, i
 		pos := m.Position()
 		dcls := depthClass(m.Depth())
 		reason := m.Apply(c)
 		err := lc.apply(r.real.e)
 		st.calls++
 		st.shapes[((dcls*nPos+posIdx[pos])*len(classList)+classIdx[c.Class()])*len(reasonList)+reasonIdx[reason]] = struct{}{}
+		if hooks.Available {
+			// instrumentation point (a pure observer): the parallel stacks of the real encoder
+			st.hookChecks++
+			if ps := hooks.CheckEncoder(r.real.e); len(ps) > 0 {
+				field := "name-stack"
+				if strings.HasPrefix(ps[0], "namespace") {
+					field = "namespace-stack"
+				}
+				outcome := "accepted"
+				if reason != "" {
+					outcome = "rejected:" + reason
+				}
+				w.Violate("hook-encoder-stacks", map[string]string{"field": field, "call": outcome},
+					"opts=%s writer=%s after call #%d %s (%s, err=%v): encoder stacks out of step: %s\n  history: %s",
+					r.optKey, r.wk, i, c, outcome, err, strings.Join(ps, "; "), describe(all, i))
+				return false
+			}
+		}
 		if (err != nil) != (reason != "") {
 			want := "accept"
 			if reason != "" {
@@ -315,8 +383,8 @@ func (r *runner) runSeq(calls []ref.EncCall, libs []libCall, check func(i int) b
 				return false
 			}
 		}
-		if doCheck {
-			return r.compare(m, i, c, all, lastRej)
+		if level > 0 {
+			return r.compare(m, i, c, all, lastRej, level > 1)
 		}
 		return true
 	}
@@ -343,6 +411,7 @@ func (r *runner) runSeq(calls []ref.EncCall, libs []libCall, check func(i int) b
 		for j, c := range cl {
 			lc, _ := toLib(c)
 			i := len(calls) + j
+			r.cur, r.curI = all, i
 			if reason := m.Apply(c); reason != "" {
 				w.Broken("model rejects its own closer %s: %s", c, reason)
 				return false
@@ -357,7 +426,7 @@ func (r *runner) runSeq(calls []ref.EncCall, libs []libCall, check func(i int) b
 				return false
 			}
 			if j == len(cl)-1 {
-				if !r.compare(m, i, c, all, lastRej) {
+				if !r.compare(m, i, c, all, lastRej, true) {
 					return false
 				}
 			}
@@ -370,7 +439,7 @@ func (r *runner) runSeq(calls []ref.EncCall, libs []libCall, check func(i int) b
 	return true
 }
 
-func (r *runner) compare(m *ref.EncModel, i int, c ref.EncCall, all []ref.EncCall, lastRej string) bool {
+func (r *runner) compare(m *ref.EncModel, i int, c ref.EncCall, all []ref.EncCall, lastRej string, ptr bool) bool {
 	w, st := r.w, r.st
 	st.stateCompares++
 	re, sh := r.real.e, r.shadow.e
@@ -405,12 +474,15 @@ func (r *runner) compare(m *ref.EncModel, i int, c ref.EncCall, all []ref.EncCal
 			}
 		}
 	}
-	p1, p2 := re.StackPointer(), sh.StackPointer()
-	if p1 != p2 {
-		bad("no-effect", "stack-pointer", "StackPointer real=%q shadow=%q", p1, p2)
-	} else if ok {
-		if p3 := m.Pointer(); string(p1) != p3 {
-			bad("state-vs-model", "stack-pointer", "StackPointer real=%q model=%q", p1, p3)
+	if ptr {
+		st.pointerCompares++
+		p1, p2 := re.StackPointer(), sh.StackPointer()
+		if p1 != p2 {
+			bad("no-effect", "stack-pointer", "StackPointer real=%q shadow=%q", p1, p2)
+		} else if ok {
+			if p3 := m.Pointer(); string(p1) != p3 {
+				bad("state-vs-model", "stack-pointer", "StackPointer real=%q model=%q", p1, p3)
+			}
 		}
 	}
 	d1, d2 := r.real.delivered(), r.shadow.delivered()
@@ -419,7 +491,7 @@ func (r *runner) compare(m *ref.EncModel, i int, c ref.EncCall, all []ref.EncCal
 		want := m.Out()
 		if !bytes.Equal(d1, want) {
 			ok = false
-			w.Violate("depth0-serialization", map[string]string{"opts": r.optKey, "after": lastRej},
+			w.Violate("depth0-serialization", map[string]string{"layout": r.layoutClass(), "after": lastRej},
 				"opts=%s writer=%s after call #%d %s at depth 0: delivered %s\n  reference %s\n  history: %s",
 				r.optKey, r.wk, i, c, diffq(d1, want), diffq(want, d1), describe(all, i))
 		}
@@ -441,7 +513,7 @@ func (r *runner) compare(m *ref.EncModel, i int, c ref.EncCall, all []ref.EncCal
 		}
 		if want := m.Out(); !bytes.HasPrefix(d1, want) {
 			ok = false
-			w.Violate("depth0-serialization", map[string]string{"opts": r.optKey, "after": lastRej},
+			w.Violate("depth0-serialization", map[string]string{"layout": r.layoutClass(), "after": lastRej},
 				"opts=%s writer=%s after call #%d %s: delivered bytes %s do not start with the completed top-level values %s\n  history: %s",
 				r.optKey, r.wk, i, c, diffq(d1, want), diffq(want, d1), describe(all, i))
 		}
